@@ -269,26 +269,43 @@ def gen_prim_events(ctx):
                 if np.abs(Pn - P * Pd).max() > 1e-9:
                     ctx.extra["auto_pmat_not_sixths"] = ctx.extra.get("auto_pmat_not_sixths", 0) + 1
                     continue
-                inp = dict(D=D, S=S, Pn=Pn.tolist(), Pd=Pd, atoms=atoms)
-                try:
-                    tmat = np.dot(np.linalg.inv(np.array(S, dtype=float)), P)
-                    with contextlib.redirect_stdout(io.StringIO()):
-                        prim = get_primitive(sc, tmat)
-                    pu, presid = xtal.project_to_unit(prim.positions, ucell.cell, D)
-                    p2s = [int(x) + 1 for x in prim.p2s_map]
-                    attrs = all(prim.symbols[i] == sc.symbols[p2s[i] - 1] and
-                                abs(prim.masses[i] - sc.masses[p2s[i] - 1]) < 1e-12 for i in range(len(prim)))
-                    lat_ok = bool(np.abs(prim.cell - np.dot(P.T, ucell.cell)).max() < 1e-9)
-                    res = dict(status="built", p2s=p2s, s2p=[int(x) + 1 for x in prim.s2p_map],
-                               p2p=[[int(k) + 1, int(v) + 1] for k, v in sorted(prim.p2p_map.items(), key=lambda kv: kv[1])],
-                               perms=[[int(x) + 1 for x in row] for row in prim.atomic_permutations],
-                               pu=[[int(v) for v in x] for x in pu], latticeOK=lat_ok, attrsOK=bool(attrs),
-                               exact=bool(presid < 1e-6))
-                except Exception as e:  # phonopy refuses the input
-                    res = dict(status="error")
-                res["auto"] = bool(pm == "auto")
-                events.append(dict(pin=inp, res=res))
-                ctx.count(("prim", ac["name"], tuple(map(tuple, S)), str(pm)))
+                requests = [None]
+                if pm == "P" and 3 <= len(ac["num"]) <= 8 and abs(det3(S)) <= 2:
+                    requests += ["cycle", "random"]       # positions_to_reorder with a 3-cycle / a random order
+                for request in requests:
+                    inp = dict(D=D, S=S, Pn=Pn.tolist(), Pd=Pd, atoms=atoms, reorder=[])
+                    try:
+                        tmat = np.dot(np.linalg.inv(np.array(S, dtype=float)), P)
+                        ptr = None
+                        if request is not None:
+                            with contextlib.redirect_stdout(io.StringIO()):
+                                prim0 = get_primitive(sc, tmat)
+                            n0 = len(prim0)
+                            order = list(range(n0))
+                            if request == "cycle":
+                                order = order[1:] + order[:1]
+                            else:
+                                ctx.rng.shuffle(order)
+                            ptr = prim0.scaled_positions[order]
+                            pu0, _ = xtal.project_to_unit(prim0.positions[order], ucell.cell, D)
+                            inp["reorder"] = [[int(v) for v in x] for x in pu0]
+                        with contextlib.redirect_stdout(io.StringIO()):
+                            prim = get_primitive(sc, tmat, positions_to_reorder=ptr)
+                        pu, presid = xtal.project_to_unit(prim.positions, ucell.cell, D)
+                        p2s = [int(x) + 1 for x in prim.p2s_map]
+                        attrs = all(prim.symbols[i] == sc.symbols[p2s[i] - 1] and
+                                    abs(prim.masses[i] - sc.masses[p2s[i] - 1]) < 1e-12 for i in range(len(prim)))
+                        lat_ok = bool(np.abs(prim.cell - np.dot(P.T, ucell.cell)).max() < 1e-9)
+                        res = dict(status="built", p2s=p2s, s2p=[int(x) + 1 for x in prim.s2p_map],
+                                   p2p=[[int(k) + 1, int(v) + 1] for k, v in sorted(prim.p2p_map.items(), key=lambda kv: kv[1])],
+                                   perms=[[int(x) + 1 for x in row] for row in prim.atomic_permutations],
+                                   pu=[[int(v) for v in x] for x in pu], latticeOK=lat_ok, attrsOK=bool(attrs),
+                                   exact=bool(presid < 1e-6))
+                    except Exception as e:  # phonopy refuses the input
+                        res = dict(status="error")
+                    res["auto"] = bool(pm == "auto")
+                    events.append(dict(pin=inp, res=res))
+                    ctx.count(("prim", ac["name"], tuple(map(tuple, S)), str(pm), str(request)))
     return events
 
 
@@ -308,6 +325,7 @@ INVARIANT ImplPerms
 INVARIANT ImplP2P
 INVARIANT ImplPrimAtoms
 INVARIANT ImplPrimLattice
+INVARIANT ImplReorder
 INVARIANT ImplPrimAttributes
 INVARIANT ImplPrimExact
 INVARIANT ImplAcceptsP
